@@ -21,6 +21,8 @@ var c04Patterns = []string{
 	".aab", ".aab.", ".xxb", ".A.", ".A.b", "b.A.", ".A.A.",
 	// three elisions with a metavariable bound after the first and used again after the third
 	".x.b.x", ".x.a.x.", ".x.y.x",
+	// two adjacent elisions (what an explicit leading ' ...' line of a statement patch amounts to, next to the implicit one)
+	"..a", "a..b", "..x.x",
 }
 
 func c04Patch(pat string, open, close string) string { return c04PatchSep(pat, open, close, ",") }
